@@ -203,10 +203,16 @@ def run(fx, tier):
     v.rule('R-SCHEMA', 'wire schema of encode_publish vs the MQTT 5 packet table (field order, kinds, sources, flag bits, Remaining Length)')
     encoder_schema_rules(fx, v, 'C01', only=('encode_publish',))
     fast_reply_rules(fx, v, 'C01')
+    public_call_arguments_rule(fx, v, 'C01', ('async_publish',))
     # the acknowledged PUBLISH is the one the caller passed: a retransmission differs from it in the DUP bit only
     from c03 import set_dup_rule
     v.rule('R-OWN', 'set_dup changes exactly the DUP bit of the stored packet; nothing else writes the stored bytes')
     set_dup_rule(fx, v, 'C01')
+    # which acknowledgements are admitted decides which publishes complete (shared with C20)
+    from c20 import table_rows_rule
+    if 'R-TABLE' not in v.rules:
+        v.rule('R-TABLE', 'reason-code tables of the packets this property handles equal the MQTT 5 tables')
+    table_rows_rule(fx, v, 'C01', ('puback', 'pubrec', 'pubcomp'))
     v.expect_min('R-CGRAPH', 6, 'success-capable completions')
     v.expect_min('R-FLOW', 40, 'reason code / props / span / wait / encode sites')
     v.expect_min('R-DOM', 15, 'matching predicates × TUs')
@@ -297,3 +303,43 @@ def fast_reply_rules(fx, v, prop):
         v.check(len(erases) == 1, 'R-DOM', 'replies::async_wait_reply%s:consumes-fast-reply [%s]' % (f.inst(), f.tu),
                 'a fast reply handed to a waiter is erased (used at most once)', key='%s:R-DOM:async_wait_reply:erase-fast-reply' % prop,
                 where=f.file)
+
+
+def public_call_arguments_rule(fx, v, prop, names):
+    """The request that is eventually encoded is the one the caller passed at the time of the call: every argument of the
+    public mqtt_client::async_* function is handed to asio::async_initiate BY VALUE (the parameter itself, copied or
+    moved).  A reference wrapper, pointer or view makes a lazily started operation (asio::deferred, an awaitable that is
+    awaited later) encode whatever the caller's object holds at LAUNCH time."""
+    from flow import unwrap_casts
+    n = 0
+    seen = set()
+    for f in fx.fns:
+        if f.cls != 'mqtt_client' or f.n not in names or f.lam:
+            continue
+        for b, i, l, c in f.calls():
+            if callee_name(c) != 'async_initiate':
+                continue
+            sig = (f.n, tuple(p_.get('t') for p_ in f.params), f.tu)
+            if sig in seen:
+                continue
+            seen.add(sig)
+            n += 1
+            bad = []
+            for a in c.get('args', [])[2:]:
+                x = f.resolve(a) if isinstance(a, dict) and a.get('k') == 'elem' else a
+                for _ in range(6):
+                    x = unwrap_casts(x)
+                    if isinstance(x, dict) and x.get('k') == 'ctor' and len(x.get('args', [])) == 1 and x.get('cls') not in ('reference_wrapper', 'basic_string_view'):
+                        x = f.resolve(x['args'][0]) if isinstance(x['args'][0], dict) and x['args'][0].get('k') == 'elem' else x['args'][0]
+                        continue
+                    break
+                ok = isinstance(x, dict) and x.get('k') == 'ref' and x.get('dk') == 'param'
+                if not ok:
+                    what = callee_name(x) if isinstance(x, dict) and x.get('k') == 'call' else (x.get('k') if isinstance(x, dict) else '?')
+                    bad.append(str(what))
+            v.check(not bad, 'R-FLOW', 'mqtt_client::%s:arguments-by-value [%s]' % (f.n, f.tu),
+                    'every argument reaches async_initiate as the parameter itself (copied or moved)%s' % (
+                        '' if not bad else ' — NOT: passed through %s' % bad),
+                    key='%s:R-FLOW:mqtt_client::%s:arguments-by-value' % (prop, f.n), where='%s:%s' % (f.path_file(), l))
+    if n == 0:
+        raise AnalysisBroken('mqtt_client::%s: async_initiate call not found' % (names,))
